@@ -1,6 +1,7 @@
 mod ctx;
 mod dispatch;
 mod gj;
+mod ops_c18;
 mod ops_relate;
 
 use ctx::Ctx;
@@ -17,6 +18,7 @@ fn main() {
     let mut seed = 0u64;
     let mut props: Vec<String> = vec![];
     let mut i = 4;
+    if args[1] == "record" { i = 5; }
     while i < args.len() {
         match args[i].as_str() {
             "--seed" => { seed = args[i + 1].parse().unwrap_or(0); i += 2; }
@@ -42,6 +44,16 @@ fn main() {
                 dispatch_case(&mut cx, n as u64, &case);
             }
         }
+        // record <kind> <out.ndjson> <n_events> --seed N : drive the real API, log a trace
+        "record" => {
+            let n: usize = args[4].parse().expect("n_events");
+            let mut w = BufWriter::new(std::fs::File::create(&args[3]).expect("create trace"));
+            match args[2].as_str() {
+                "c18" => ops_c18::record(&mut w, seed, n),
+                k => { eprintln!("unknown record kind {k}"); std::process::exit(2); }
+            }
+            return;
+        }
         other => { eprintln!("unknown command {other}"); std::process::exit(2); }
     }
     cx.finish();
@@ -51,6 +63,9 @@ fn dispatch_case(cx: &mut Ctx, n: u64, case: &Value) {
     match case["op"].as_str().unwrap_or("") {
         "relate" => ops_relate::relate_case(cx, n, case),
         "coordpos" => ops_relate::coordpos_case(cx, n, case),
+        "c18_conv" => ops_c18::conv_case(cx, n, case),
+        "c18_chain" => ops_c18::chain_case(cx, n, case),
+        "c18_step" => ops_c18::step_case(cx, n, case),
         "coordpos_pt" => ops_relate::coordpos_pt_case(cx, n, case),
         op => { cx.count(&format!("unknown_op_{op}"), 1); }
     }
